@@ -194,7 +194,7 @@ class Prop:
             doc = json.loads(text0)
             if isinstance(t0, Exception):
                 obs = [[0, S.jv_sx(doc)], [1, S.err_class(t0)]]
-                hashes = []
+                hashes, fnames = S.failed_load_facts(lambda: cls.load(io.StringIO(text0), **lkw))
             else:
                 forest, hashes = S.obs_loaded_tree(t0)
                 obs = [[0, S.jv_sx(doc)], [0, [S.jv_sx(meta0), forest]]]
@@ -259,7 +259,7 @@ class Prop:
         for n in B.all_nodes(tree._root):
             if isinstance(n._data, str):
                 strings.add(n._data)
-        names = S.loaded_names(t0) if ms == "fs" and doc is not None and not isinstance(t0, Exception) else ()
+        names = () if ms != "fs" or doc is None else fnames if isinstance(t0, Exception) else S.loaded_names(t0)
         coq = (f"CRound {S.coq_sopts(desc, tree, U)} {S.coq_lenv(typed, ms, strings, hashes if doc is not None else [], names)} "
                f"{H.coq_forest(tree._root, U)}")
         nodes = (doc or {}).get("nodes", [])
